@@ -34,7 +34,7 @@ ASSUMPTIONS = [
 ACCEPT = mpf(10) ** -35
 VIOLATE = mpf(10) ** -20
 MARGIN = mpf(10) ** -25
-DRAWS = {"quick": 24, "thorough": 400}
+DRAWS = {"quick": 40, "thorough": 2500}
 NSHARDS = {"quick": 32, "thorough": 64}
 SHARD_TIMEOUT = {"quick": 900, "thorough": 5400}
 
